@@ -1235,6 +1235,11 @@ fn run(a: &vhcore::Args) -> i32 {
     rep.set("functions_compiled_and_run", n_run_fns);
     rep.set("functions_compiled_and_run_per_type_and_arm_count", json!(run_per_type_arms));
     rep.set("runtime_value_evaluations_debug_plus_release", n_run_values);
+    rep.set("jobs", a.jobs as u64);
+    rep.set(
+        "loadavg_at_end",
+        std::fs::read_to_string("/proc/loadavg").unwrap_or_default().trim().to_string(),
+    );
     rep.set("worker_requests", n_requests as u64);
     rep.set("package_builds", n_builds as u64);
     rep.set("summed_build_millis_per_label_all_workers", json!(build_millis));
